@@ -13,7 +13,10 @@ ENV = {
 
 def git(root, *args, check=True):
     env = dict(os.environ)
+    keep_global = env.get("GIT_CONFIG_GLOBAL") if env.get("VERIF_GIT_GLOBAL_OVERRIDE") else None
     env.update(ENV)
+    if keep_global:
+        env["GIT_CONFIG_GLOBAL"] = keep_global
     p = subprocess.run(["git", "-c", "init.defaultBranch=main", "-c", "protocol.file.allow=always", "-c", "core.quotePath=false",
                         "-c", "advice.detachedHead=false", *args], cwd=str(root), env=env, capture_output=True, text=True)
     if check and p.returncode != 0:
